@@ -213,7 +213,7 @@ class WorldCheck(Check):
             for i, v in enumerate(w[key]):
                 # ref and ref0 go together: a lone ref0 means ref = 1, a different scaling (and ref0 = 1
                 # alone is a zero-width scaling OpenMDAO cannot represent), not a simpler one
-                for ks in (('indices',), ('scaler',), ('adder',), ('ref', 'ref0')):
+                for ks in (('indices',), ('scaler',), ('adder',), ('ref', 'ref0'), ('units',)):
                     if any(k in v for k in ks):
                         cand = copy.deepcopy(plan)
                         for k in ks:
@@ -228,7 +228,7 @@ class WorldCheck(Check):
                 cand = copy.deepcopy(plan)
                 cand['world']['solvers'][g]['rhs_checking'] = False
                 yield cand
-        for k, dflt in (('mode', 'auto'), ('complex', False), ('approx_totals', None)):
+        for k, dflt in (('mode', 'auto'), ('complex', False), ('approx_totals', None), ('total_coloring', None)):
             if plan['knobs'].get(k, dflt) != dflt:
                 cand = copy.deepcopy(plan)
                 cand['knobs'][k] = dflt
@@ -296,7 +296,13 @@ class C32(WorldCheck):
         return k
 
     def gen_ops(self, rng, plan):
-        return [{'op': 'setup'}, {'op': 'run_model'}, gen_set(rng, plan['world']), {'op': 'run_model'}]
+        ops = [{'op': 'setup'}, {'op': 'run_model'}, gen_set(rng, plan['world']), {'op': 'run_model'}]
+        # the order a group settled on must be found again by every later setup of the same Problem
+        for _ in range(rng.choice([0, 0, 1, 2])):
+            ops += [{'op': 'setup', 'same': rng.random() < 0.7}, {'op': 'run_model'}]
+            if rng.random() < 0.5:
+                ops += [gen_set(rng, plan['world']), {'op': 'run_model'}]
+        return ops
 
     def nontrivial(self, plan, st, faults, probes):
         return probes.get('order_differs_from_insertion', 0) > 0
@@ -656,17 +662,34 @@ class C01(HistoryCheck):
         k = dict(ALL_KNOBS)
         k.update(cycle=rng.choice([0.0, 0.5, 1.0]), imp=rng.choice([0.0, 0.3]), quad=rng.choice([0.0, 0.4]),
                  scaling=rng.choice([0.0, 0.0, 0.4]), neg_scaling=True, res_ref=True,
-                 mf=rng.choice([0.0, 0.0, 0.2]), nl=['nlbgs', 'newton', 'nlbj', 'broyden'])
+                 mf=rng.choice([0.0, 0.0, 0.2]), nl=['nlbgs', 'newton', 'nlbj', 'broyden'], voi_units=0.3)
         return k
 
     def run_knobs(self, rng, world):
-        return {'mode': rng.choice(['auto', 'fwd', 'rev']), 'complex': rng.random() < 0.2}
+        kn = {'mode': rng.choice(['auto', 'fwd', 'rev']), 'complex': rng.random() < 0.2}
+        # The sparsity behind a dynamic total colouring is taken from totals computed with *randomised* partials
+        # (values in [1, 2)); a LinearBlockGS/Jac that contracts for the model's own partials need not do so
+        # for those, and its diverged (finite, huge) entries push every other entry below the tolerance
+        # sweep -- a colouring that misses nonzeros, hence wrong totals.  That is a limit of the method a user
+        # meets as "my linear solver must be able to solve the randomised system", not a stale-state effect,
+        # so the colouring knob is drawn only for direct/Krylov stacks (see DESIGN 7.2).
+        block_ln = any(s_['ln'].split('_')[0] in ('lnbgs', 'lnbj') for s_ in world['solvers'].values())
+        if rng.random() < 0.25 and not block_ln:
+            kn['total_coloring'] = True
+            kn['coloring_min_improve'] = rng.choice([5.0, 0.0, -100.0])
+        return kn
 
     def gen_ops(self, rng, plan):
         ops = standard_history(rng, plan['world'])
         if rng.random() < 0.15:
             k = rng.randint(2, len(ops))
-            ops[k:k] = [{'op': 'setup'}, {'op': 'run_model'}]
+            ops[k:k] = [{'op': 'setup', 'same': rng.random() < 0.5}, {'op': 'run_model'}]
+        if plan['knobs'].get('total_coloring'):
+            # the colouring is only used for the driver's own of/wrt: ask for those in most totals ops
+            w = plan['world']
+            for o in ops:
+                if o['op'] == 'totals' and rng.random() < 0.7:
+                    o.update(of=list(range(len(w['resps']))), wrt=list(range(len(w['dvs']))), explicit=False)
         return ops
 
     def nontrivial(self, plan, st, faults, probes):
@@ -689,7 +712,7 @@ class C08(HistoryCheck):
         k = dict(ALL_KNOBS)
         k.update(cycle=rng.choice([0.0, 0.5, 1.0]), imp=rng.choice([0.0, 0.3]), quad=rng.choice([0.0, 0.4]),
                  scaling=0.6, neg_scaling=True, res_ref=True, mf=rng.choice([0.0, 0.0, 0.2]),
-                 nl=['nlbgs', 'newton', 'nlbj', 'broyden'])
+                 nl=['nlbgs', 'newton', 'nlbj', 'broyden'], voi_units=0.2)
         return k
 
     def run_knobs(self, rng, world):
@@ -751,7 +774,7 @@ class C24(HistoryCheck):
         k.update(ncomp=(4, 8), auto_ivc=0.45, cycle=rng.choice([0.0, 0.5, 1.0]), imp=rng.choice([0.0, 0.3]),
                  quad=rng.choice([0.0, 0.3]), scaling=rng.choice([0.0, 0.3]), res_ref=True,
                  root_ln=['direct', 'direct_csc', 'runonce', 'lnbgs', 'lnbgs', 'lnbj', 'krylov'],
-                 ln=['direct', 'direct_csc', 'lnbgs', 'lnbgs', 'lnbj', 'krylov'])
+                 ln=['direct', 'direct_csc', 'lnbgs', 'lnbgs', 'lnbj', 'krylov'], voi_units=0.2)
         return k
 
     def run_knobs(self, rng, world):
@@ -1615,22 +1638,102 @@ class C12(HistoryCheck):
     def run_knobs(self, rng, world):
         kn = {'mode': rng.choice(['auto', 'fwd', 'rev']), 'complex': True}
         r = rng.random()
+        g = None
         if r < 0.3:
             kn['approx_totals'] = {'method': rng.choice(['fd', 'fd', 'cs']), 'form': rng.choice(['forward', 'backward', 'central']),
                                    'step': rng.choice([1e-6, 1e-5])}
         elif r < 0.5 and len(world['groups']) > 1:
-            g = rng.choice([g_ for g_ in world['groups'] if g_])
+            # A group that approximates its semi-totals presents itself as an explicit component (dR/dy =
+            # -I); a gradient-based nonlinear solver on that same group would be handed that semi-total in
+            # place of the partials it needs (observed: Newton diverges to NaN in run_model).  That is a
+            # modelling error, not an approximation whose accuracy the property speaks about.
+            # The same holds for such a solver on any group above it when the approximated group holds an
+            # implicit component (its residual stays in implicit form while its jacobian is the explicit
+            # one), and on the current tree the approximation keys of a group under a Newton solve in
+            # run_model are pruned by the driver's relevance (singular Newton matrix): both are outside the
+            # statement, so approximated groups are generated under run-once / fixed-point ancestors only.
+            def ancestors_ok(g_):
+                while True:
+                    if world['solvers'].get(g_, {'nl': 'runonce'})['nl'] in ('newton', 'broyden'):
+                        return False
+                    if not g_:
+                        return True
+                    g_ = world['groups'][g_]['parent'] or ''
+            cands = [g_ for g_ in sorted(world['groups']) if g_ and ancestors_ok(g_)]
+            g = rng.choice(cands) if cands else None
+            cyc = world['cycle']
+            if cyc is not None and g is not None:
+                inside = lambda x: x == g or x.startswith(g + '.')
+                byn = B.comp_by_name(world)
+                if inside(byn[cyc['early']]['group']) and inside(byn[cyc['late']]['group']) and \
+                        not inside(cyc['group']):
+                    # the feedback loop closes inside g but is converged by a solver above g: differencing g
+                    # (which then only runs once) is not differencing the converged model -- a modelling
+                    # error of the user, not an approximation the property speaks about
+                    g = None
+        if g is not None:
             kn['group_approx'] = {g: {'method': rng.choice(['fd', 'cs']), 'form': rng.choice(['forward', 'central']),
                                       'step': rng.choice([1e-6, 1e-5])}}
         kn['twin_colored'] = rng.random() < 0.4
+        if kn.get('approx_totals') and world['solvers']['']['nl'] in ('newton', 'broyden'):
+            # A model-level approximation coloring under a top-level gradient-based nonlinear solver is
+            # computed inside that solver's first linearization, i.e. inside run_model; on the current tree
+            # that raises ('_ColSparsityJac' object has no attribute '_apply').  C12 states nothing about
+            # run_model in that configuration (see DESIGN 7.2), so the twin is not generated there.
+            kn['twin_colored'] = False
         return kn
 
     def twins_for(self, plan):
         return ('colored',) if plan['knobs'].get('twin_colored') else ()
 
+    @staticmethod
+    def finding_class(plan):
+        """Configuration classes of the two recorded findings (known_findings.json); evaluated on the plan
+        only, so that shrinking keeps a violation inside its class."""
+        w, kn = plan['world'], plan['knobs']
+        scoped = [(g_, a) for g_, a in (kn.get('group_approx') or {}).items() if g_ in w['groups']]
+        if kn.get('approx_totals'):
+            scoped.append(('', kn['approx_totals']))
+
+        def inside(x, g_):
+            return g_ == '' or x == g_ or x.startswith(g_ + '.')
+        for g_, a in scoped:
+            if a['method'] == 'cs' and any(
+                    s_['nl'] in ('newton', 'broyden') and s_['ln'].split('_')[0] in ('krylov', 'lnbgs', 'lnbj')
+                    for gn, s_ in w['solvers'].items() if inside(gn, g_)):
+                return 'cs-across-newton-with-iterative-linear-solver'
+        for g_, a in scoped:
+            anc = w['groups'][g_]['parent'] if g_ else None
+            while anc is not None:
+                if '_' in w['solvers'].get(anc, {'ln': 'runonce'})['ln']:
+                    return 'approximated-group-under-assembled-jacobian'
+                anc = w['groups'][anc]['parent'] if anc else None
+        for g_, a in scoped:
+            if g_ and any(c['kind'] == 'imp' and inside(c['group'], g_) for c in w['comps']):
+                anc = w['groups'][g_]['parent']
+                while anc is not None:
+                    if w['solvers'].get(anc, {'ln': 'runonce'})['ln'].split('_')[0] in ('direct', 'krylov'):
+                        return 'approximated-group-holds-implicit-component'
+                    anc = w['groups'][anc]['parent'] if anc else None
+        return None
+
+    def signature(self, plan, viol):
+        sig = WorldCheck.signature(self, plan, viol)
+        if viol['inv'] == 'I-12-values':
+            cls = self.finding_class(plan)
+            if cls:
+                sig += ':' + cls
+        return sig
+
     def gen_ops(self, rng, plan):
+        model_level = bool(plan['knobs'].get('approx_totals'))
+
         def extra(rng_, w):
-            return rng_.choice([{'op': 'linearize'}, gen_totals_op(rng_, w)])
+            # run_linearize on a model that approximates its own totals is not a way a user computes an
+            # approximation (Problem.compute_totals is); it also linearizes the root linear solver over
+            # sub-jacobians the approximation never refreshed
+            return rng_.choice([gen_totals_op(rng_, w) if model_level else {'op': 'linearize'},
+                                gen_totals_op(rng_, w)])
         return standard_history(rng, plan['world'], nsteps=(2, 6), extra=extra, fault_p=0.2)
 
     def nontrivial(self, plan, st, faults, probes):
@@ -1647,6 +1750,15 @@ class C12(HistoryCheck):
                 and sim.clean
             before = sim.state_bytes(with_resid=True) if bracket else None
             res, raised, fired = check._orig_do(sim, op)
+            if kind in ('totals', 'linearize') and raised is not None and sim.viol and \
+                    sim.viol[-1]['inv'] == 'I-converge' and (sim.knobs.get('approx_totals') or
+                                                             sim.knobs.get('group_approx')):
+                # A solver that gives up inside the sweep of a group- or model-level approximation (the
+                # perturbed solves run with the relevance of the requested totals, which can leave part of a
+                # cycle unsolved) says so; the property speaks about approximations that were computed.
+                sim.viol.pop()
+                sim.void = True
+                sim.probes.inc('solver_failure_inside_approximation_sweep_void')
             if bracket and raised is None and fired == 0 and not sim.viol:
                 after = sim.state_bytes(with_resid=True)
                 sim.probes.inc('approx_bracketed')
@@ -1676,13 +1788,24 @@ class C12(HistoryCheck):
         (ra, ea, fa), (rb, eb, fb) = outs
         if ra is None or rb is None or not (a.clean and b.clean):
             return True
+        bound = 2.0 * a.approx_abs_bound()
         for k2 in ra:
-            if relerr(rb[k2], ra[k2], floor=1e-3 + float(np.abs(ra[k2]).max())) > 1e-6:
+            if relerr(rb[k2], ra[k2], floor=1e-3 + float(np.abs(ra[k2]).max())) > 1e-6 and not (
+                    np.shape(rb[k2]) == np.shape(ra[k2]) and np.all(np.isfinite(rb[k2])) and
+                    float(np.abs(np.asarray(rb[k2]) - np.asarray(ra[k2])).max()) <= bound * _dscale(a, op, k2)):
                 viol.append({'inv': 'I-12-colored', 'msg': f"totals {k2}: uncoloured approximation {ra[k2].tolist()} vs "
                              f"coloured twin {rb[k2].tolist()}"})
                 return False
         a.probes.inc('colored_twin_comparisons')
         return True
+
+
+def _dscale(sim, op, key):
+    if not op.get('driver_scaling'):
+        return 1.0
+    r = next(x for x in sim.world['resps'] if x['name'] == key[0])
+    d = next(x for x in sim.world['dvs'] if x['name'] == key[1])
+    return abs(sim._voi_scale(r) / sim._voi_scale(d))
 
 
 CHECKS['C12'] = C12()
